@@ -293,16 +293,6 @@ package callbacks
 //@   assert admitted-by-select-omit-and-permission: (has(selectColumns, field.DBName) && selectColumns[field.DBName]) || (!has(selectColumns, field.DBName) && !restricted) [C10]
 //@   assert not-a-key-or-create-time-column: !field.PrimaryKey && field.AutoCreateTime == 0 [C10,C16]
 
-//@ # ---------- C11: the parent lists a many-to-many preload builds are its own ----------
-//@ # The parents of a join key are collected by appending: the list stored under a key is never the list object that
-//@ # belongs to the parents' own identity map (two join keys of the same parent would then share one array and the
-//@ # rows of one child would land on the other's parents).
-//@ site join-key-parents-are-a-copy
-//@   match mapwrite map
-//@   in callbacks.preload
-//@   min-sites 1
-//@   assert not-the-parents-own-list: ref(arg2) != ref(results) || len(results) == 0 [C11]
-
 //@ # ---------- C13: association values saved once per operation ----------
 //@ # "Each hook fires exactly once per record": a record reached twice through associations in one Create/Update
 //@ # must be saved (and run its hooks) once. The per-operation visit map remembers what was saved; the first
